@@ -517,6 +517,7 @@ fn generate_root_definitions(
     }
 
     context.current_namespace = None;
+    context.current_function_locals.clear();
 
     Ok(())
 }
@@ -546,6 +547,7 @@ fn generate_root_definition(
 
     // Names are written for use inside that namespace
     context.current_namespace = namespace;
+    context.current_function_locals.clear();
 
     let defs = match decl {
         ir::RootDefinition::Struct(id) => {
@@ -800,6 +802,10 @@ fn generate_function_inner(
     out_trampoline: bool,
     context: &mut GenerateContext,
 ) -> Result<ast::FunctionDefinition, GenerateError> {
+    context.current_function_locals = context
+        .name_map
+        .get_function_local_names(context.module, id);
+
     let sig = context.module.function_registry.get_function_signature(id);
     let decl = context
         .module
@@ -4755,12 +4761,14 @@ fn scoped_name_to_identifier(
 ) -> ast::ScopedIdentifier {
     // Technically should be absolute but that generates uglier paths in the common case
     // It has to be where the first name would find something else in the place we write it
-    let hidden = context.name_map.is_root_name_hidden(
-        context.module,
-        &scoped_name.0[0],
-        context.current_namespace,
-        context.current_struct,
-    );
+    // Parameters and local variables of the function we are in are found first of all
+    let hidden = context.current_function_locals.contains(&scoped_name.0[0])
+        || context.name_map.is_root_name_hidden(
+            context.module,
+            &scoped_name.0[0],
+            context.current_namespace,
+            context.current_struct,
+        );
     ast::ScopedIdentifier {
         base: if hidden {
             ast::ScopedIdentifierBase::Absolute
@@ -4853,6 +4861,9 @@ pub(crate) struct GenerateContext<'m> {
 
     /// Struct that contains the method we are generating
     current_struct: Option<ir::StructId>,
+
+    /// Names of the parameters and local variables of the function we are generating
+    current_function_locals: HashSet<String>,
 }
 
 /// A function parameter that is added to supply global state
@@ -4906,6 +4917,7 @@ impl<'m> GenerateContext<'m> {
             mesh_output_type: None,
             current_namespace: None,
             current_struct: None,
+            current_function_locals: HashSet::new(),
         }
     }
 
